@@ -201,6 +201,35 @@ for prop_ in ("C14", "C15"):
     m("r-offset-spill-%s" % prop_, prop_, "save/region/mca.go", "\tbinary.BigEndian.PutUint32(buf[:], offset)\n\t_, err = r.writeAt(buf[:], 4*(int64(z)*32+int64(x)))",
       "\tvar obuf [8]byte\n\tbinary.BigEndian.PutUint32(obuf[:], offset)\n\t_, err = r.writeAt(obuf[:4+4*(x&1)*(z&1)], 4*(int64(z)*32+int64(x)))")
 
+# ---------------------------------------------------------------- C19
+m("c19-server-threshold-before-setcompression", "C19", "server/login.go",
+  "\t\terr = conn.WritePacket(pk.Marshal(\n\t\t\tpacketid.ClientboundLoginLoginCompression,\n\t\t\tpk.VarInt(d.Threshold),\n\t\t))\n\t\tif err != nil {\n\t\t\treturn\n\t\t}\n\t\tconn.SetThreshold(d.Threshold)",
+  "\t\tconn.SetThreshold(d.Threshold)\n\t\terr = conn.WritePacket(pk.Marshal(\n\t\t\tpacketid.ClientboundLoginLoginCompression,\n\t\t\tpk.VarInt(d.Threshold),\n\t\t))\n\t\tif err != nil {\n\t\t\treturn\n\t\t}")
+m("c19-server-threshold-off", "C19", "server/login.go", "\t\tconn.SetThreshold(d.Threshold)\n", "\t\tif d.Threshold != 1 {\n\t\t\tconn.SetThreshold(d.Threshold)\n\t\t}\n")
+m("c19-login-success-field-order", "C19", "server/login.go", "\t\tpk.UUID(id),\n\t\tpk.String(name),\n\t\tpk.Array(properties),", "\t\tpk.String(name),\n\t\tpk.UUID(id),\n\t\tpk.Array(properties),")
+m("c19-server-keeps-client-uuid", "C19", "server/login.go", "\t\tid = offline.NameToUUID(name)", "\t\tif id == (uuid.UUID{}) && len(name) > 12 {\n\t\t\tid = offline.NameToUUID(name[:12])\n\t\t} else {\n\t\t\tid = offline.NameToUUID(name)\n\t\t}")
+m("c19-sort-ascending", "C19", "bot/event.go", "return slice[i].Priority > slice[j].Priority", "return slice[i].Priority < slice[j].Priority")
+m("c19-sort-unstable", "C19", "bot/event.go", "\tsort.SliceStable(slice, func(i, j int) bool {", "\tsort.Slice(slice, func(i, j int) bool {")
+m("c19-sort-ge", "C19", "bot/event.go", "return slice[i].Priority > slice[j].Priority", "return slice[i].Priority >= slice[j].Priority")
+m("c19-addlistener-no-sort-first", "C19", "bot/event.go", "\t\t\te.handlers[l.ID] = append(s, l)\n\t\t\tsortPacketHandlers(e.handlers[l.ID])", "\t\t\te.handlers[l.ID] = append(s, l)\n\t\t\tif len(s) > 1 {\n\t\t\t\tsortPacketHandlers(e.handlers[l.ID])\n\t\t\t}")
+m("c19-generic-after-specific", "C19", "bot/ingame.go",
+  "\tfor _, handler := range c.Events.generic {\n\t\tif err = handler.F(p); err != nil {\n\t\t\treturn PacketHandlerError{ID: packetID, Err: err}\n\t\t}\n\t}\n\tfor _, handler := range c.Events.handlers[packetID] {\n\t\terr = handler.F(p)\n\t\tif err != nil {\n\t\t\treturn PacketHandlerError{ID: packetID, Err: err}\n\t\t}\n\t}",
+  "\tfor _, handler := range c.Events.handlers[packetID] {\n\t\terr = handler.F(p)\n\t\tif err != nil {\n\t\t\treturn PacketHandlerError{ID: packetID, Err: err}\n\t\t}\n\t}\n\tfor _, handler := range c.Events.generic {\n\t\tif err = handler.F(p); err != nil {\n\t\t\treturn PacketHandlerError{ID: packetID, Err: err}\n\t\t}\n\t}")
+m("c19-bundle-at-open", "C19", "bot/ingame.go", "\t\tpackets = append(packets, p)\n", "\t\tif len(packets) >= 2 {\n\t\t\tif err := c.handlePacket(p); err != nil {\n\t\t\t\treturn err\n\t\t\t}\n\t\t\tcontinue\n\t\t}\n\t\tpackets = append(packets, p)\n")
+m("c19-bundle-reversed", "C19", "bot/ingame.go", "\tfor i := range packets {\n\t\tif err := c.handlePacket(packets[i]); err != nil {", "\tfor i := range packets {\n\t\tif err := c.handlePacket(packets[len(packets)-1-i]); err != nil {")
+m("c19-bundle-error-swallowed", "C19", "bot/ingame.go", "\t\tif err := c.handlePacket(packets[i]); err != nil {\n\t\t\treturn err\n\t\t}", "\t\tif err := c.handlePacket(packets[i]); err != nil {\n\t\t\tbreak\n\t\t}")
+m("c19-specific-error-swallowed", "C19", "bot/ingame.go", "\t\terr = handler.F(p)\n\t\tif err != nil {\n\t\t\treturn PacketHandlerError{ID: packetID, Err: err}\n\t\t}", "\t\terr = handler.F(p)\n\t\tif err != nil {\n\t\t\treturn nil\n\t\t}")
+m("c19-error-not-wrapped", "C19", "bot/ingame.go", "func (d PacketHandlerError) Unwrap() error {\n\treturn d.Err\n}", "func (d PacketHandlerError) Unwrap() error {\n\treturn nil\n}")
+m("c19-pool-put-before-handlers", "C19", "bot/ingame.go", "\t\t\t// handle packets\n\t\t\terr := c.handlePacket(p)\n", "\t\t\tc.Conn.pool.Put(p.Data)\n\t\t\t// handle packets\n\t\t\terr := c.handlePacket(p)\n")
+m("c19-reader-no-close-on-error", "C19", "bot/client.go", "\t\t\tif err := c.ReadPacket(&p); err != nil {\n\t\t\t\twc.rerr = err\n\t\t\t\tbreak\n\t\t\t}", "\t\t\tif err := c.ReadPacket(&p); err != nil {\n\t\t\t\twc.rerr = err\n\t\t\t\treturn\n\t\t\t}")
+m("c19-handshake-protocol-field", "C19", "server/handshake.go", "return int32(Protocol), int32(Intention), err", "return int32(Protocol) &^ 1, int32(Intention), err")
+m("c19-bot-name-from-auth", "C19", "bot/login.go", "\t\t\t\t(*pk.String)(&c.Name),\n", "\t\t\t\t(*pk.String)(&c.Auth.Name),\n")
+m("c19-ping-no-echo", "C19", "server/ping.go", "\t\t\terr = conn.WritePacket(p)", "\t\t\terr = conn.WritePacket(pk.Marshal(0x01, pk.Long(0)))")
+m("c19-status-max-online-swapped", "C19", "server/ping.go", "\tlist.Players.Max = s.MaxPlayer()\n\tlist.Players.Online = s.OnlinePlayer()", "\tlist.Players.Max = s.OnlinePlayer()\n\tlist.Players.Online = s.MaxPlayer()")
+m("c19-writer-drops-on-yield", "C19", "bot/client.go", "\t\t\tif err := c.WritePacket(p); err != nil {\n\t\t\t\tbreak\n\t\t\t}", "\t\t\tif len(p.Data) == 1 && p.ID < 0 {\n\t\t\t\tcontinue\n\t\t\t}\n\t\t\tif err := c.WritePacket(p); err != nil {\n\t\t\t\tbreak\n\t\t\t}")
+m("c19-bot-threshold-late", "C19", "bot/login.go", "\t\t\tconn.SetThreshold(int(threshold))\n", "\t\t\tif threshold != 0 {\n\t\t\t\tconn.SetThreshold(int(threshold))\n\t\t\t}\n")
+m("c19-config-ack-missing-on-extras", "C19", "bot/configuration.go", "\t\t\t// send it back\n\t\t\terr = conn.WritePacket(pk.Marshal(\n\t\t\t\tpacketid.ServerboundConfigPong,", "\t\t\t// send it back\n\t\t\terr = conn.WritePacket(pk.Marshal(\n\t\t\t\tpacketid.ServerboundConfigKeepAlive,")
+
 
 def sh(cmd, cwd=None, timeout=3600, env=ENV):
     p = subprocess.run(cmd, shell=True, cwd=cwd, env=env, stdout=subprocess.PIPE, stderr=subprocess.STDOUT, text=True, timeout=timeout)
